@@ -52,9 +52,15 @@ Evaluated at every `settle` (a quiescent moment: every waiter has returned or is
 all timers have fired).  Each law is the black-box reading of theorems of Ekit/Props/C13.lean:
 
 * B  a returned Wait holds `L`, the `L`-protected counter equals the number of returns   (`c13_returns_holding_L`)
-* C  an error return only with an ended context                                          (`c13_err_only_if_ctx_done`)
+* C  an error return only with an ended context, and the error is the waiter's own context's error
+     (observed by identity by the harness: `err`; anything else is `errother`)            (`c13_err_only_if_ctx_done`)
 * D  nobody is parked with an ended context at quiescence                                 (`c13_parked_enabled`)
 * E  #nil ≤ #Signals + Σ_broadcasts (waiters present)        (`c13_trace_no_invented_wakeup`, `c13_broadcast_all`)
+     — for the whole case and for every suffix that starts at an earlier `settle`: a quiescent moment has
+     no token in flight (every channel is empty: `c13_node_clean_on_free`, a parked waiter's channel holds
+     nothing), so the nil returns first seen after it need tokens issued after it.  This is what rejects
+     a wake-up by a stale token (a pooled node reused with a full channel) and a waiter that gave up but
+     absorbed a later signal and handed it to somebody who was not waiting then.
 * F  for a waiter p still parked with a live context: no Broadcast was called after p enqueued, and every
      Signal called after p enqueued has produced a nil return since — p keeps the list non-empty, so no
      Signal finds it empty and no hand-off drops its token (`c13_unsignalled_is_linked`,
@@ -75,6 +81,7 @@ structure SpecSt where
   ws : List WInfo := []
   signals : List Nat := []                -- line numbers
   bcasts : List (Nat × Nat) := []         -- (line, waiters present)
+  settles : List Nat := []                -- lines of the earlier accepted `settle`s (quiescent moments)
   dead : Bool := false                    -- a violation was already reported for this case
 
 def WInfo.ended (w : WInfo) : Bool :=
@@ -110,6 +117,7 @@ def specSettle (sp : SpecSt) (obs : String) : SpecSt × Option String :=
     match rs.find? (bad ·.2) with
     | some (w, st) =>
       if st.endsWith "!" then (sp, some s!"returns_holding_L: Wait of waiter {w} returned ({st}) without holding c.L")
+      else if st = "errother" then (sp, some s!"waiter {w}: Wait returned an error that is not its context's error (ctx.Err())")
       else (sp, some s!"waiter {w}: {st}")
     | none =>
     -- C: an error return requires an ended context
@@ -127,6 +135,15 @@ def specSettle (sp : SpecSt) (obs : String) : SpecSt × Option String :=
     if nils.length > tokensMax then
       (sp, some s!"invented wake-up: {nils.length} Waits returned nil but at most {tokensMax} tokens were issued ({sp.signals.length} signals, broadcasts over {(sp.bcasts.map (·.2))} waiters)")
     else
+    -- E, suffix form: since the quiescent moment `q` (no token in flight there)
+    let stale := sp.settles.findSome? fun q =>
+      let n := (nils.filter fun w => match w.ret with | some (l, _) => l > q | none => false).length
+      let t := (sp.signals.filter (· > q)).length + ((sp.bcasts.filter (·.1 > q)).map (·.2)).foldl (· + ·) 0
+      if n > t then some (q, n, t) else none
+    match stale with
+    | some (q, n, t) =>
+      (sp, some s!"invented wake-up: {n} Waits returned nil after the quiescent moment at line {q} although only {t} tokens were issued since (a token from before it was kept and delivered later)")
+    | none =>
     -- F: no lost wake-up, for every waiter still parked with a live context
     let lost := parked.findSome? fun p =>
       match sp.bcasts.find? (fun b => b.1 > p.waitLine) with
@@ -145,7 +162,7 @@ def specSettle (sp : SpecSt) (obs : String) : SpecSt × Option String :=
       let returned := (ws.filter (·.ret.isSome)).length
       if fieldInt obs "cnt" ≠ some (returned : Int) then
         (sp, some s!"the counter protected by c.L is {(fieldInt obs "cnt").getD (-9)} after {returned} returns (Wait returned without holding L)")
-      else (sp, none)
+      else ({ sp with settles := sp.line :: sp.settles }, none)
 
 /-- one script line through the laws -/
 def specStep (sp : SpecSt) (ws : List String) (obs : String) : SpecSt × Option String :=
